@@ -29,4 +29,10 @@ VARIANTS = [
         dict(file=N, old="                if molecule.share_moltype_with(template):", new="                if len(molecule) == len(template):")]),
     dict(name='benign-include-from-dict-keys', expect='silent', edits=[
         dict(file=T, old="    moltype_includes = []\n", new="    moltype_includes = list()\n")]),
+    dict(name='same_interactions-zip-prefix (seed C03_e)', expect='fire', key='ZIP-prefix|Molecule.same_interactions', edits=[
+        dict(file=M, old="        return all(\n            self.interactions[interaction_type] == other.interactions[interaction_type]\n            for interaction_type in keys_self\n        )",
+             new="        for interaction_type in keys_self:\n            for mine, theirs in zip(self.interactions[interaction_type], other.interactions[interaction_type]):\n                if mine != theirs:\n                    return False\n        return True")]),
+    dict(name='benign-same_interactions-length-guarded-zip', expect='silent', edits=[
+        dict(file=M, old="        return all(\n            self.interactions[interaction_type] == other.interactions[interaction_type]\n            for interaction_type in keys_self\n        )",
+             new="        for interaction_type in keys_self:\n            if len(self.interactions[interaction_type]) != len(other.interactions[interaction_type]):\n                return False\n            for mine, theirs in zip(self.interactions[interaction_type], other.interactions[interaction_type]):\n                if mine != theirs:\n                    return False\n        return True")]),
 ]
